@@ -501,10 +501,13 @@ inline void supervise(const Part &part, const Options &opt, Agg &agg) {
           agg.viol.push_back({"hang", "case exceeded its CPU budget twice (" + std::to_string(budget) + " s, then alone with " + std::to_string(budget * kSoloFactor) + " s of CPU time): the call does not return", inflight, ""});
           while (pos < todo.size() && todo[pos] <= inflight) ++pos;
         } else if (confirmedHangs >= 2) {
-          // two hangs are already confirmed in this shard: further budget overruns are counted as inconclusive, not re-run
+          // two hangs are already confirmed in this shard: the verdict is established, every further overrun would burn a whole
+          // budget; the rest of the shard is not run (reported as not completed)
           agg.inconclusive++;
           agg.crashed++;
-          while (pos < todo.size() && todo[pos] <= inflight) ++pos;
+          agg.counters["shard_stopped_after_two_confirmed_hangs"] += 1;
+          unlink(errPath);
+          break;
         }
         // else: retry the same case alone (pos unchanged); keep a trace of it in the evidence
         else { agg.counters["cases_rerun_alone_after_cpu_budget"] += 1; agg.counters["rerun_alone_case_" + std::to_string(inflight)] += 1; }
